@@ -1,15 +1,21 @@
 #!/bin/bash
-# try_seed.sh <seed-id> <Cxx> [tier]  — apply seeded/<seed-id>/patch.diff to /repo, run the check, undo
+# try_seed.sh <seed-id> <Cxx> [tier] — run a check against the seeded change WITHOUT touching /repo: the patch is applied to a
+# scratch worktree of /repo HEAD and the check runs with VERIF_REPO pointing at it (same effect as
+# `git -C /repo apply`, `./check`, `git -C /repo checkout -- .`, but safe while other work uses /repo). The property's
+# evidence file is preserved (evidence must come from runs on the unchanged tree).
 S=$1; C=$2; T=${3:-quick}
 cd /verif
-if ! git -C /repo apply --check /verif/seeded/$S/patch.diff 2>/dev/null; then
-  if git -C /repo apply --check -3 /verif/seeded/$S/patch.diff 2>/dev/null; then :; else echo "SEED $S: patch does not apply to current /repo"; exit 3; fi
+WT=/tmp/seedrun/$S-$C
+rm -rf $WT; git -C /repo worktree prune; mkdir -p /tmp/seedrun
+git -C /repo worktree add -q --detach $WT HEAD || exit 3
+if ! git -C $WT apply /verif/seeded/$S/patch.diff 2>/dev/null; then
+  echo "SEED $S: patch does not apply to current /repo HEAD"; git -C /repo worktree remove --force $WT; exit 3
 fi
-git -C /repo apply /verif/seeded/$S/patch.diff || exit 3
-(cd /repo && GOFLAGS=-mod=mod GOPROXY=off GOSUMDB=off GOTOOLCHAIN=local go build ./... ) || { echo "SEED $S: does not compile"; git -C /repo checkout -- .; exit 3; }
+(cd $WT && GOFLAGS=-mod=mod GOPROXY=off GOSUMDB=off GOTOOLCHAIN=local go build ./... ) || { echo "SEED $S: does not compile"; git -C /repo worktree remove --force $WT; exit 3; }
 cp evidence/$C.json build/evidence_$C.keep 2>/dev/null
-./check $C --tier $T > build/seed_$S.log 2>&1; rc=$?
+VERIF_REPO=$WT ./check $C --tier $T > build/seed_$S.log 2>&1; rc=$?
 cp build/evidence_$C.keep evidence/$C.json 2>/dev/null
-git -C /repo checkout -- . ; git -C /repo clean -fdq
+( flock 9; git checkout -q -- harness/go.mod ) 9>build/gobuild.lock
+git -C /repo worktree remove --force $WT
 grep -E "^VIOLATION|^$C " build/seed_$S.log | head -4
 echo "SEED $S on $C: exit $rc"
